@@ -80,3 +80,28 @@ Theorem c11_f31_refuted_before_fix_v5 :
   /\ option_map (fun l => (Client.Loop5.wire5 l, Client.Loop5.pending5 l)) (Client.Loop5.lrun5 (Client.Loop5.linit5 1 false) Client.Loop5Proofs.f31_loop5_history)
   = Some ([Client.State5.P5PubRel 1 0], [Client.Loop5Proofs.pq1_5 2]).
 Proof. exact Client.Loop5Proofs.f31_loop5_witness. Qed.
+
+(** ---- retransmit first over a second failure during an unfinished replay, with requests in the channel *)
+Theorem c11_clean_keeps_pending_before_channel : forall l, Inv (st l) ->
+  exists l' reqs, loop_clean l = Ok l' /\ pending l' = reqs ++ pending l ++ filter not_puback (chan l) /\ chan l' = [].
+Proof. exact clean_keeps_pending_before_channel. Qed.
+
+Theorem c11_second_failure_during_replay :
+  option_map (fun l => (pending l, chan l)) (lrun (linit 10 false) replay_cut_history)
+  = Some ([RPublish (mkPub Q1 1 1 1); RPublish (mkPub Q1 2 2 2); RPublish (mkPub Q1 3 3 3); pq1 4; pq1 5], []) /\
+  option_map wire (lrun (linit 10 false)
+    (replay_cut_history ++ [Reconnect true; TakeRequest; Yield; TakeRequest; Yield; TakeRequest; Yield; TakeRequest; Yield; TakeRequest; Yield]))
+  = Some [PPublish (mkPub Q1 1 1 1); PPublish (mkPub Q1 2 2 2); PPublish (mkPub Q1 3 3 3); PPublish (mkPub Q1 4 4 4); PPublish (mkPub Q1 5 5 5)].
+Proof. exact second_failure_during_replay. Qed.
+
+Theorem c11_clean_keeps_pending_before_channel_v5 : forall l,
+  Client.Loop5.pending5 (Client.Loop5.loop_clean5 l)
+  = Client.Inv5.held5 (Client.Loop5.st5 l) ++ Client.Loop5.pending5 l ++ filter Client.Loop5.not_puback5 (Client.Loop5.chan5 l) /\
+  Client.Loop5.chan5 (Client.Loop5.loop_clean5 l) = [].
+Proof. exact Client.Loop5Proofs.clean5_keeps_pending_before_channel. Qed.
+
+Theorem c11_second_failure_during_replay_v5 :
+  option_map (fun l => (Client.Loop5.pending5 l, Client.Loop5.chan5 l)) (Client.Loop5.lrun5 (Client.Loop5.linit5 10 false) Client.Loop5Proofs.replay_cut5_history)
+  = Some ([Client.State5.R5Publish (Client.State5.mkPub5 Q1 1 1 1 None); Client.State5.R5Publish (Client.State5.mkPub5 Q1 2 2 2 None);
+           Client.State5.R5Publish (Client.State5.mkPub5 Q1 3 3 3 None); Client.Loop5Proofs.pq1_5 4; Client.Loop5Proofs.pq1_5 5], []).
+Proof. exact Client.Loop5Proofs.second_failure_during_replay5_pending. Qed.
